@@ -9,9 +9,18 @@
    delivered = ds_data of the handler invocations (latest first), latched = value taken by the exchange whose handler call
    has not begun, dropped = values refused because the cancel flag was seen (source.c:205). *)
 From Coq Require Import ZArith Bool List.
-From Verif Require Import Word Conc Gen_consts Gen_fields Gen_dqstate Gen_srcdata SrcData SrcData_proofs.
+From Verif Require Import Word Conc Gen_consts Gen_fields Gen_dqstate Gen_srcdata DqFields SrcData SrcData_proofs.
+From Verif Require SrcLane SrcLane_proofs.
 Import ListNotations.
 Local Open Scope Z_scope.
+
+(* Two models.  (A) Model/SrcData.v: event-driven, its thread automaton is what every recorded thread trace of the
+   library is replayed through; the source's lane is abstracted there (ghost owner, one enqueued-or-dirty bit).
+   (B) Model/SrcLane.v: the same protocol with the source's REAL dq_state word, moved only by the generated bodies of
+   _dispatch_queue_wakeup, _dispatch_queue_drain_try_lock / _try_unlock, _dispatch_queue_invoke_finish,
+   _dispatch_lane_suspend / _resume, in the style of Model/SLane.v (token uniqueness, lock shape held / free,
+   no-stranding and DIRTY clauses).  The data clauses are proved on both; exclusivity and "delivered afterwards" are
+   proved on (B).  Section (A) first. *)
 
 (* DATA_ADD: at every state  sum(delivered) + latched + pending = sum(merged)  (mod 2^64); hence at rest with nothing
    pending the delivered values sum to the merged values; on an uncancelled source every value passed was merged *)
@@ -52,49 +61,24 @@ Theorem C15_handler_data_is_latched_value : forall c s t e s',
 Proof. exact callout_reports_latched. Qed.
 Print Assumptions C15_handler_data_is_latched_value.
 
-(* merges made while the source is suspended or its handler is running are delivered afterwards.
-   FULL STATEMENT: in every fair run, data merged on an uncancelled source is eventually passed to the handler.
-   PROVED (liveness as invariants of the model): (1) whenever data is pending on an uncancelled source, the source is
-   enqueued-or-dirty (rq), or a merging thread is between its atomic operation and the commit of its wakeup (which sets
-   DISPATCH_QUEUE_DIRTY: C15_wakeup_commits_dirty), or the holder of the drain lock stands before a re-examination of
-   ds_pending_data / before re-enqueueing; in particular (2) at rest — no thread inside merge_data, nobody draining — pending
-   data implies rq, whatever the suspend count; (3) from such a state, once unsuspended, a drain pass is enabled and calls
-   the handler with exactly the pending value.
-   MISSING (the lane's half, C01/C02/C06): that a source whose dq_state is ENQUEUED is eventually invoked by its target
-   queue, and that DIRTY without ENQUEUED persists only under a drain-lock holder (whose unlock is refused) or under a
-   suspension (whose final resume re-runs _dispatch_source_wakeup).  rq merges the two bits; that link is exercised by
-   the stress oracle (stuck detector), not proved. *)
-Theorem C15_merge_while_busy_delivered_partial : forall c s, reach c s -> quiescent s -> pend s <> 0 -> cancelled s = false ->
-  rq s = true /\ owner s = None.
-Proof. exact pending_is_runnable. Qed.
-Print Assumptions C15_merge_while_busy_delivered_partial.
+(* (A) liveness as invariants of the abstract model (kept because this is the model the traces are replayed through):
+   pending data always has the source enqueued-or-dirty, a merger that still owes its wakeup, or a lock holder about to
+   look again; a drain pass on an unlocked unsuspended source delivers exactly the pending value.  The statement at the
+   strength of the real word is C15_merge_while_busy_delivered below. *)
 Theorem C15_pending_always_has_waker : forall c s, reach c s -> pend s <> 0 -> cancelled s = false ->
   rq s = true \/ (exists u, waking (pcs s u) = true) \/ (exists o, owner s = Some o /\ recheck (pcs s o) = true).
 Proof. exact pending_has_waker. Qed.
 Print Assumptions C15_pending_always_has_waker.
-Theorem C15_drain_pass_delivers : forall c s t v,
+Theorem C15_drain_pass_delivers : forall c s t old new v,
+  lock_commits (cself c) old new = true ->
   pcs s t = PIdle -> owner s = None -> susp s = 0 -> pend s = v -> v <> 0 ->
-  exists s', grun c s (map (fun e => (t, e)) (drain_pass v)) = Some s' /\
+  exists s', grun c s (map (fun e => (t, e)) (drain_pass old new v)) = Some s' /\
              delivered s' = v :: delivered s /\ pend s' = 0 /\ pcs s' t = PInCall.
 Proof. exact drain_delivers. Qed.
 Print Assumptions C15_drain_pass_delivers.
 Theorem C15_wakeup_commits_dirty : forall q old, exists new, wake_body q old = Commit new 0 /\ word_dirty new = true.
 Proof. exact wake_body_dirty. Qed.
 Print Assumptions C15_wakeup_commits_dirty.
-
-(* the event handler is never running on two threads at once, whatever the target queue.
-   FULL STATEMENT: for the real lane.  PROVED: in the model the exchange on ds_pending_data, the handler call and
-   everything between them are performed only by the thread recorded as holder of the source's drain lock (ghost
-   `owner`, acquired only when free), so at most one thread is inside the handler.  MISSING: that the drain lock of the
-   real dq_state word excludes (C02_exclusion for the source, a serial lane: the handler is called only from
-   _dispatch_source_invoke2 under _dispatch_queue_class_invoke's _dispatch_queue_drain_try_lock, inline_internal.h:1799);
-   validated on every recorded run (each thread's exchange / handler marks lie between its own lock and unlock writes of
-   dq_state; in-handler flag; handler stamp intervals), not proved here. *)
-Theorem C15_handler_exclusive_partial : forall c s, reach c s ->
-  (forall t u, pcs s t = PInCall -> pcs s u = PInCall -> t = u) /\ 0 <= running s <= 1 /\
-  (forall t, drain_pc (pcs s t) = true -> owner s = Some t).
-Proof. exact handler_exclusive. Qed.
-Print Assumptions C15_handler_exclusive_partial.
 
 (* ties *)
 Theorem C15_sites_match_source :
@@ -108,31 +92,149 @@ Theorem C15_model_uses_thread_automaton : forall c s t e s',
 Proof. exact gstep_tstep. Qed.
 Print Assumptions C15_model_uses_thread_automaton.
 
+(* ------------------------------------------------------------------------------------------------------------------
+   (B) the source as the lane it is (Model/SrcLane.v).  c : kind, troot (drained from a root queue / from a lane),
+   starve (avoid_starvation); rb : role bits of the activated source (0 inner, 1 base anon).  Every reachable state:
+   any number of threads calling merge_data, workers of the target queue, dispatch_suspend / dispatch_resume (inline
+   count), dispatch_source_cancel and spurious MAKE_DIRTY wakeups, in any interleaving.
+   BOUNDARY (not part of the model): the target queue is a counter `rootq` of how many times the source sits in it, and
+   any idle thread may act as its worker; that the target queue eventually invokes what sits in it is C01 for the
+   target.  Scope: source activated and installed; more than 62 nested suspensions, over-resume and the life cycle
+   after cancellation leave the fragment (POut / not modelled). *)
+
+(* the event handler of a source is never running on two threads at once, whatever queue it targets: the callout
+   (PW_call -> PW_incall) lies inside the region protected by the drain lock of the real dq_state word; two threads in
+   that region are the same thread; the word then names that thread as drain owner with the full width and IN_BARRIER
+   taken and ENQUEUED held; the ghost `running` is that thread *)
+Theorem C15_handler_exclusive : forall c rb s t1 t2 o1 o2,
+  0 <= rb < 2 -> SrcLane.reach c rb s -> SrcLane.pcs s t1 = SrcLane.PW_incall o1 -> SrcLane.pcs s t2 = SrcLane.PW_incall o2 ->
+  t1 = t2 /\ SrcLane.running s = Some t1.
+Proof. exact SrcLane_proofs.handler_exclusive. Qed.
+Print Assumptions C15_handler_exclusive.
+Theorem C15_drain_lock_exclusive : forall c rb s t1 t2,
+  0 <= rb < 2 -> SrcLane.reach c rb s -> SrcLane_proofs.locked_pc (SrcLane.pcs s t1) = true ->
+  SrcLane_proofs.locked_pc (SrcLane.pcs s t2) = true -> t1 = t2.
+Proof. exact SrcLane_proofs.lock_exclusive. Qed.
+Print Assumptions C15_drain_lock_exclusive.
+Theorem C15_locked_word_names_the_drainer : forall c rb s t,
+  0 <= rb < 2 -> SrcLane.reach c rb s -> SrcLane_proofs.locked_pc (SrcLane.pcs s t) = true ->
+  exists r, SrcLane.st s = enc r /\ wfr r /\ f_owner r = t /\ f_ib r = 1 /\ f_wq r = 4096 /\ f_enq r = 1 /\
+            SrcLane.token s = Some (Some t).
+Proof. exact SrcLane_proofs.locked_word. Qed.
+Print Assumptions C15_locked_word_names_the_drainer.
+Theorem C15_handler_runs_only_under_the_lock : forall c rb s t,
+  0 <= rb < 2 -> SrcLane.reach c rb s -> SrcLane.running s = Some t -> exists o, SrcLane.pcs s t = SrcLane.PW_incall o.
+Proof. exact SrcLane_proofs.running_is_locked. Qed.
+Print Assumptions C15_handler_runs_only_under_the_lock.
+
+(* merges made while the source is suspended or its handler is running are delivered afterwards (up to the boundary):
+   (1) pending data of an uncancelled source always has somebody responsible: the holder of the ENQUEUED token (the
+       target queue, or a thread about to push it / lock it / draining it), a thread that still owes its wakeup (merger
+       after its atomic operation, resumer after the resume that made the source runnable), or the suspension itself;
+   (2) at rest, unsuspended: the source sits in its target queue and a worker can pop it;
+   (3) the drainer that has already examined ds_pending_data cannot give the lock back over pending data once the
+       mergers have done their wakeups: DIRTY is set and _dispatch_queue_drain_try_unlock is refused (it looks again);
+   (4) no state is stuck: every thread inside a call or a drain has an enabled step. *)
+Theorem C15_merge_while_busy_delivered : forall c rb s,
+  0 <= rb < 2 -> SrcLane.reach c rb s -> SrcLane.quiescent s -> SrcLane.pend s <> 0 -> SrcLane.cancelled s = false ->
+  SrcLane.suspended_word (SrcLane.st s) = false ->
+  SrcLane.rootq s = 1 /\ SrcLane.token s = Some None /\ forall t fl, exists s', SrcLane.begin s t (SrcLane.CWorker fl) = Some s'.
+Proof. exact SrcLane_proofs.not_stranded. Qed.
+Print Assumptions C15_merge_while_busy_delivered.
+Theorem C15_pending_has_responsible : forall c rb s,
+  0 <= rb < 2 -> SrcLane.reach c rb s -> SrcLane.pend s <> 0 -> SrcLane.cancelled s = false ->
+  SrcLane.token s <> None \/ SrcLane.wakers s <> [] \/ SrcLane.rwakers s <> [] \/ SrcLane.suspended_word (SrcLane.st s) = true.
+Proof. exact SrcLane_proofs.pending_has_responsible. Qed.
+Print Assumptions C15_pending_has_responsible.
+Theorem C15_unlock_refused_over_pending : forall c rb s t o,
+  0 <= rb < 2 -> SrcLane.reach c rb s -> SrcLane.pcs s t = SrcLane.PW_unlock o -> SrcLane.pend s <> 0 ->
+  SrcLane.cancelled s = false -> SrcLane.wakers s = [] -> SrcLane.suspended_word (SrcLane.st s) = false ->
+  SrcLane.gstep c s t = Some (SrcLane.set_pc s t (SrcLane.PW_xor o)).
+Proof. exact SrcLane_proofs.unlock_refused_over_pending. Qed.
+Print Assumptions C15_unlock_refused_over_pending.
+Theorem C15_no_stuck_state : forall c rb s t,
+  0 <= rb < 2 -> SrcLane.reach c rb s -> SrcLane.valid_tid t -> SrcLane.pcs s t <> SrcLane.Idle ->
+  SrcLane.pcs s t <> SrcLane.POut -> exists s', SrcLane.gstep c s t = Some s'.
+Proof. exact SrcLane_proofs.step_enabled. Qed.
+Print Assumptions C15_no_stuck_state.
+
+(* the data clauses again, on the lane model *)
+Theorem C15_lane_add_conservation : forall c rb s, 0 <= rb < 2 -> SrcLane.reach c rb s -> SrcLane.ck c = KindAdd ->
+  (zsum (SrcLane.delivered s) + SrcLane.latched s + SrcLane.pend s) mod 2 ^ 64 = zsum (SrcLane.merged s) mod 2 ^ 64 /\
+  (SrcLane.quiescent s -> SrcLane.pend s = 0 -> zsum (SrcLane.delivered s) mod 2 ^ 64 = zsum (SrcLane.merged s) mod 2 ^ 64) /\
+  (SrcLane.cancelled s = false -> SrcLane.dropped s = []).
+Proof. exact SrcLane_proofs.add_conservation. Qed.
+Print Assumptions C15_lane_add_conservation.
+Theorem C15_lane_or_union : forall c rb s, 0 <= rb < 2 -> SrcLane.reach c rb s -> SrcLane.ck c = KindOr ->
+  Z.lor (zlor (SrcLane.delivered s)) (Z.lor (SrcLane.latched s) (SrcLane.pend s)) = zlor (SrcLane.merged s) /\
+  (SrcLane.quiescent s -> SrcLane.pend s = 0 -> zlor (SrcLane.delivered s) = zlor (SrcLane.merged s)) /\
+  (SrcLane.cancelled s = false -> SrcLane.dropped s = []).
+Proof. exact SrcLane_proofs.or_union. Qed.
+Print Assumptions C15_lane_or_union.
+Theorem C15_lane_replace : forall c rb s, 0 <= rb < 2 -> SrcLane.reach c rb s -> SrcLane.ck c = KindReplace ->
+  Forall (fun d => In d (SrcLane.merged s)) (SrcLane.delivered s) /\
+  (SrcLane.latched s = 0 \/ In (SrcLane.latched s) (SrcLane.merged s)) /\
+  (SrcLane.pend s = 0 \/ In (SrcLane.pend s) (SrcLane.merged s)) /\
+  (forall v l, SrcLane.quiescent s -> SrcLane.merged s = v :: l -> v <> 0 -> SrcLane.pend s = 0 ->
+               exists d, SrcLane.delivered s = v :: d) /\
+  (SrcLane.cancelled s = false -> SrcLane.dropped s = []).
+Proof. exact SrcLane_proofs.replace_spec. Qed.
+Print Assumptions C15_lane_replace.
+Theorem C15_lane_never_zero : forall c rb s, 0 <= rb < 2 -> SrcLane.reach c rb s ->
+  Forall (fun d => d <> 0) (SrcLane.delivered s) /\
+  (forall t o x, SrcLane.pcs s t = SrcLane.PW_call o x -> x <> 0 /\ SrcLane.latched s = x).
+Proof. exact SrcLane_proofs.never_zero. Qed.
+Print Assumptions C15_lane_never_zero.
+
 (* non-vacuity: thread 7 merges 5 into an idle ADD source (its wakeup enqueues it); thread 9 drains: latches 5 and enters
    the handler; meanwhile thread 8 merges 3 (its wakeup finds the drain lock held and only sets DIRTY); the handler
    returns, the drainer sees pending data and re-enqueues; a second pass delivers 3 and unlocks cleanly.  The dq_state
-   words are those of a recorded run. *)
+   words are those of a recorded run (with 9 as the drainer's lock value); lock / unlock events carry the words and are
+   checked by the generated drain_try_lock / drain_try_unlock / invoke_finish bodies. *)
 Definition demo_schedule : list (Z * event) :=
   [ (7, ev0 DVU_CALL 0 0 5 0 1); (7, ev0 DV_LOAD 0 OFF_FLAGS 4194305 4194305 1); (7, ev0 DV_ADD 0 OFF_PEND 0 5 1);
     (7, ev0 DV_LOAD 0 OFF_FLAGS 4194305 4194305 1); (7, ev0 DV_LOAD 0 OFF_PEND 5 5 1);
     (7, ev0 DV_LOAD 0 OFF_STATE 9005000231485440 9005000231485440 1);
     (7, ev0 DV_CASW 3 OFF_STATE 9005000231485440 9005552134782976 1); (7, ev0 DVU_RET 0 0 0 0 1);
-    (9, ev0 DVX_LOCK 0 0 0 0 1); (9, ev0 DV_LOAD 0 OFF_PEND 5 5 1); (9, ev0 DV_XCHG 0 OFF_PEND 5 0 1);
+    (9, ev0 DVX_LOCK 0 0 9005552134782976 27021599911706633 1); (9, ev0 DV_LOAD 0 OFF_PEND 5 5 1); (9, ev0 DV_XCHG 0 OFF_PEND 5 0 1);
     (9, ev0 DVU_CALLOUT_BEGIN 0 0 5 0 1);
     (8, ev0 DVU_CALL 0 0 3 0 1); (8, ev0 DV_LOAD 0 OFF_FLAGS 4194305 4194305 1); (8, ev0 DV_ADD 0 OFF_PEND 0 3 1);
     (8, ev0 DV_LOAD 0 OFF_FLAGS 4194305 4194305 1); (8, ev0 DV_LOAD 0 OFF_PEND 3 3 1);
-    (8, ev0 DV_LOAD 0 OFF_STATE 27021599911728437 27021599911728437 1);
-    (8, ev0 DV_CASW 3 OFF_STATE 27021599911728437 27022149667542325 1); (8, ev0 DVU_RET 0 0 0 0 1);
-    (9, ev0 DVU_CALLOUT_END 0 0 5 0 1); (9, ev0 DV_LOAD 0 OFF_PEND 3 3 1); (9, ev0 DVX_UNLOCK 0 0 1 0 1);
-    (9, ev0 DVX_LOCK 0 0 0 0 1); (9, ev0 DV_LOAD 0 OFF_PEND 3 3 1); (9, ev0 DV_XCHG 0 OFF_PEND 3 0 1);
+    (8, ev0 DV_LOAD 0 OFF_STATE 27021599911706633 27021599911706633 1);
+    (8, ev0 DV_CASW 3 OFF_STATE 27021599911706633 27022149667520521 1); (8, ev0 DVU_RET 0 0 0 0 1);
+    (9, ev0 DVU_CALLOUT_END 0 0 5 0 1); (9, ev0 DV_LOAD 0 OFF_PEND 3 3 1); (9, ev0 DVX_UNLOCK 0 0 27022149667520521 9005552134782976 1);
+    (9, ev0 DVX_LOCK 0 0 9005552134782976 27021599911706633 1); (9, ev0 DV_LOAD 0 OFF_PEND 3 3 1); (9, ev0 DV_XCHG 0 OFF_PEND 3 0 1);
     (9, ev0 DVU_CALLOUT_BEGIN 0 0 3 0 1); (9, ev0 DVU_CALLOUT_END 0 0 3 0 1); (9, ev0 DV_LOAD 0 OFF_PEND 0 0 1);
-    (9, ev0 DVX_UNLOCK 0 0 0 0 1) ].
+    (9, ev0 DVX_UNLOCK 0 0 27021599911706633 9005000231485440 1) ].
 Example C15_nonvacuous :
-  match grun (mkCfg KindAdd) init_state (firstn 20 demo_schedule) with
+  match grun (mkCfg KindAdd 9) init_state (firstn 20 demo_schedule) with
   | Some s => pcs s 9 = PInCall /\ pend s = 3 /\ rq s = true /\ delivered s = [5] /\ merged s = [3; 5] /\ owner s = Some 9
   | None => False end /\
-  match grun (mkCfg KindAdd) init_state demo_schedule with
+  match grun (mkCfg KindAdd 9) init_state demo_schedule with
   | Some s => delivered s = [3; 5] /\ merged s = [3; 5] /\ pend s = 0 /\ owner s = None /\ rq s = false /\
               pcs s 7 = PIdle /\ pcs s 8 = PIdle /\ pcs s 9 = PIdle
   | None => False end.
 Proof. vm_compute. repeat split. Qed.
+
+(* ... and the same scenario on the lane model (base-anon source drained from a non-overcommit root queue): after the
+   second merge the word is locked by 9, ENQUEUED and DIRTY, and 9 is in the handler; at the end everything is delivered
+   and the word is the idle word of the recorded runs (0x1ffe1000000000) *)
+Definition lane_steps (t : Z) (n : nat) : list SrcLane.action := repeat (SrcLane.AStep t) n.
+Definition lane_cfg := SrcLane.mkCfg KindAdd true true.
+Definition lane_demo1 : list SrcLane.action :=
+  SrcLane.ABegin 7 (SrcLane.CMerge 5 0) :: lane_steps 7 6 ++ SrcLane.ABegin 9 (SrcLane.CWorker 0) :: lane_steps 9 6 ++
+  SrcLane.ABegin 8 (SrcLane.CMerge 3 0) :: lane_steps 8 5.
+Definition lane_demo2 : list SrcLane.action :=
+  lane_demo1 ++ lane_steps 9 5 ++ SrcLane.ABegin 9 (SrcLane.CWorker 0) :: lane_steps 9 10.
+Example C15_lane_nonvacuous :
+  match SrcLane.run lane_cfg (SrcLane.init_state 1) lane_demo1 with
+  | Some s => (exists o, SrcLane.pcs s 9 = SrcLane.PW_incall o) /\ SrcLane.pend s = 3 /\ SrcLane.delivered s = [5] /\
+              SrcLane.token s = Some (Some 9) /\ f_owner (dec (SrcLane.st s)) = 9 /\ f_d (dec (SrcLane.st s)) = 1 /\
+              f_enq (dec (SrcLane.st s)) = 1 /\ SrcLane.running s = Some 9
+  | None => False end /\
+  match SrcLane.run lane_cfg (SrcLane.init_state 1) lane_demo2 with
+  | Some s => SrcLane.delivered s = [3; 5] /\ SrcLane.merged s = [3; 5] /\ SrcLane.pend s = 0 /\ SrcLane.token s = None /\
+              SrcLane.rootq s = 0 /\ SrcLane.st s = 9005068950962176 /\ SrcLane.pcs s 7 = SrcLane.Idle /\
+              SrcLane.pcs s 8 = SrcLane.Idle /\ SrcLane.pcs s 9 = SrcLane.Idle
+  | None => False end.
+Proof. vm_compute. repeat split. eexists. reflexivity. Qed.
